@@ -1,1 +1,82 @@
-def main : IO Unit := pure ()
+import NfcVerif.Model.IsoDep
+open NfcVerif NfcVerif.IsoDep
+
+/-- the application used by the correspondence runs: `rlen` body octets depending on the
+command, on the execution number and on the position, followed by the status word -/
+def tieApp (rlen : Nat) (sw : Bytes) (n : Nat) (cmd : Bytes) : Bytes :=
+  (List.range rlen).map (fun i => (cmd.foldl (· + ·) 0 + 7 * n + 13 * i + cmd.length) % 256) ++ sw
+
+def parseScript (s : String) : Option (List Fault) :=
+  if s = "-" then some [] else
+  s.toList.mapM fun c =>
+    match c with
+    | 'd' => some Fault.d | 'l' => some .l | 'c' => some .c | 'p' => some .p | 'e' => some .e
+    | _ => none
+
+def hexList (l : List Bytes) : String :=
+  if l.isEmpty then "." else ",".intercalate (l.map toHex)
+
+def FUEL : Nat := 1000
+
+def nats (l : List String) : Option (List Nat) := l.mapM String.toNat?
+
+def showState (rs : List String) (pcd : Pcd) (w : World Card) : String :=
+  ";".intercalate rs ++ s!" | {pcd.pni} | {hexList w.trace} | {hexList w.card.log} | {w.card.bn}"
+
+/-- run a sequence of exchanges ("N" = presence check) on one world -/
+def runSeq (cfg : CardCfg) : List String → Pcd → World Card → List String → Option String
+  | [], pcd, w, acc => some (showState acc.reverse pcd w)
+  | c :: cs, pcd, w, acc =>
+    if c = "N" then
+      let r := presence (isoPeer cfg) pcd w
+      runSeq cfg cs pcd r.1 (showPy (fun _ => "-") r.2 :: acc)
+    else match parseHex c with
+      | none => none
+      | some cmd =>
+        let r := exchange (isoPeer cfg) FUEL pcd cmd w
+        runSeq cfg cs r.2.1 r.1 (showPy toHex r.2.2 :: acc)
+
+def mkCfg (p : List Nat) (sw : Bytes) : Option CardCfg :=
+  match p with
+  | [chunk, wI, wA, wC, wtxm, rlen] =>
+    some { chunk := chunk, wtxI := wI, wtxAck := wA, wtxChain := wC, wtxm := wtxm, app := tieApp rlen sw }
+  | _ => none
+
+def showPcd (p : Pcd) : String := s!"{p.miu} {p.nNak} {p.nAck} {p.pni}"
+
+def handle (line : String) : String :=
+  match line.splitOn " " with
+  | ["seq", miu, nNak, nAck, chunk, wI, wA, wC, wtxm, rlen, sw, script, cmds] =>
+    match miu.toInt?, nats [nNak, nAck], nats [chunk, wI, wA, wC, wtxm, rlen], parseHex sw, parseScript script with
+    | some miu, some [nNak, nAck], some ps, some sw, some sc =>
+      match mkCfg ps sw with
+      | some cfg =>
+        (runSeq cfg (cmds.splitOn ",") { pni := 0, miu := miu, nNak := nNak, nAck := nAck }
+          { card := Card.init, script := sc, trace := [] } []).getD "bad-op"
+      | none => "bad-op"
+    | _, _, _, _, _ => "bad-op"
+  | ["apdu", miu, nNak, nAck, chunk, wI, wA, wC, wtxm, rlen, sw, script, ext, cla, ins, p1, p2, data, mrl, check] =>
+    match miu.toInt?, nats [nNak, nAck], nats [chunk, wI, wA, wC, wtxm, rlen], parseHex sw, parseScript script,
+          nats [ext, cla, ins, p1, p2, mrl, check], parseHex data with
+    | some miu, some [nNak, nAck], some ps, some sw, some sc, some [ext, cla, ins, p1, p2, mrl, check], some data =>
+      match mkCfg ps sw with
+      | some cfg =>
+        let r := sendApdu (isoPeer cfg) FUEL { pni := 0, miu := miu, nNak := nNak, nAck := nAck } (ext != 0)
+                  cla ins p1 p2 data mrl (check != 0) { card := Card.init, script := sc, trace := [] }
+        showState [showPy toHex r.2.2] r.2.1 r.1
+      | none => "bad-op"
+    | _, _, _, _, _, _, _ => "bad-op"
+  | ["act", kind, h, maxSend] =>
+    match parseHex h, maxSend.toNat? with
+    | some b, some m =>
+      if kind = "A" then showPy showPcd (activateA b m)
+      else if kind = "B" then showPy showPcd (activateB b m)
+      else "bad-op"
+    | _, _ => "bad-op"
+  | ["enc", ext, cla, ins, p1, p2, data, mrl] =>
+    match nats [ext, cla, ins, p1, p2, mrl], parseHex data with
+    | some [ext, cla, ins, p1, p2, mrl], some data => showPy toHex (encodeApdu (ext != 0) cla ins p1 p2 data mrl)
+    | _, _ => "bad-op"
+  | _ => "bad-op"
+
+def main : IO Unit := runDriver handle
